@@ -1,7 +1,7 @@
 """Life-cycle properties C06 C07 C08 C09 C10 C11 C12 (C17): families of behaviours of Scen.tla replayed on the real server."""
 import json
 import vlib
-from props import scen
+from props import scen, refine
 
 # which monitors / projection checks speak for which property
 ATTR = {
@@ -288,6 +288,9 @@ def check(run, pid, families, extra=None):
     rows, trace = scen.replay(run, scenarios, par=8)
     res = scen.validate(run, trace, first=ATTR[pid]["inv"])
     viols = attribute(pid, res, rows, scenarios)
+    # refinement: every recorded execution (its per-goroutine event sequences) is a behaviour of Gldap.tla
+    racc, rrej, rn, rskip = refine.check(run, rows, scenarios if not q else scenarios[:600])
+    viols += refine.violations(pid, rrej, rows, scenarios)
     nextra = 0
     if extra:
         ev, nextra = extra(run)
@@ -300,6 +303,9 @@ def check(run, pid, families, extra=None):
                         "trace": [[r["ev"], r["c"], r["i"], r["val"]] for r in rows if r.get("scen") == sample["id"]][:40]}],
            "evaluations": nenv, "distinct_nontrivial": len({json.dumps([e for e in s["behaviour"] if e["a"] in scen.ENV]) for s in scenarios if any(e["hold"] or e["a"] in ("stop", "close", "panic") for e in s["behaviour"])}),
            "families": stats, "trace_events": len(rows),
+           "refinement": {"traces": rn, "accepted": len(racc), "rejected": len(rrej), "not_modelled": rskip,
+                          "rule": "GldapRefine.tla: per-goroutine event queues (gates of server.go/conn.go, handler entry/exit, OnClose, Stop/Run, client actions) "
+                                  "interleaved by TLC under Gldap's actions; a trace is accepted when every event is consumed"},
            "rule": "TLC enumerates the behaviours of Scen.tla (Gldap.tla in quiescent normal form) up to the family's number of environment actions, "
                    "deduplicated by environment-action sequence; each is replayed on a real server (children processes, crash and hang detection); "
                    "non-trivial = contains a held handler, a close, a panic or a Stop"}
